@@ -225,6 +225,12 @@ func finalizeWriting() {
 		case line := <-logBuffer:
 			adapter.Write(line, 0)
 		case <-time.After(10 * time.Millisecond):
+			// The timeout can win although lines are still buffered (when this
+			// goroutine did not get to run for a while): only stop when the
+			// buffer is really empty.
+			if len(logBuffer) > 0 {
+				continue
+			}
 			fmt.Printf("%s%s %s EOF%s\n", InfoLevel.color(), time.Now().Format(timeFormat), leftArrow, endColor())
 			return
 		}
